@@ -44,6 +44,10 @@ CHECKS = {
          "Lost, duplicated or torn updates of every assignment operator are made visible by construction (injective orbits, one bit per update, identity updates racing with increments, linearizability of small histories); unshared executions of shared Code/Function values (incl. the lazy iterator helpers) must equal the sequential result. Hundreds of workloads x repetitions per quick run, ~4M shared operations.",
          "The harness does not own the scheduler: interleavings are sampled by repetition on 16 cores; a race needing one rare interleaving, or a deadlock (reported as inconclusive by the watchdog), can be missed.",
          "DESIGN.md section 3 C16 and section 7"),
+ "C19": ("proptest-generated value pairs x provenance paths + exhaustive basis x path pairs; oracle: structural equality of the harness's value model (reference model), symmetry/negation/reflexivity laws",
+         "Equal and nearly-equal first-order values are built along 24 provenance paths (every array-producing operator, any/union-typed positions, cells, closures, loops) and compared with ==, !=, match value arms, bound/unbound, folded/run-time and nested inside arrays, tuples and structs; ~460k comparisons per quick run, 20 basis values x 24 x 24 path pairs swept completely.",
+         "Trusts the JSON value model's equality (IEEE for floats) and that each provenance expression evaluates to the intended value (checked first).",
+         "DESIGN.md section 3, C19"),
 }
 PENDING = {}
 props = [json.loads(l) for l in open(os.path.join(ROOT, "properties.jsonl"))]
